@@ -42,6 +42,13 @@ class BoundMethod:
     def __repr__(self):
         return f"BoundMethod<{self.name} of {self.recv!r}>"
 
+    def as_val(self):
+        # used as a plain value (a data attribute of an opaque object)
+        from .core import attr_uf
+        if isinstance(self.recv, SV):
+            return attr_uf(self.name)(self.recv.t)
+        raise Unsupported(f"attribute {self.name} of {self.recv!r} used as a value")
+
 
 class SuperProxy:
     def __init__(self, obj, after_cls):
